@@ -252,7 +252,9 @@ PROPS = {
         "assumptions": ["events are paced so that only the stalled consumers' own buffers can overflow"],
     },
     "C11": {
-        "engines": [tree_engine("step,burst,stall", ("C11",), None, 1500, 25000)],
+        "engines": [tree_engine("step,burst,stall", ("C11",), None, 1500, 25000),
+                    # consumers a whole buffer behind when their node (or an ancestor) is closed
+                    tree_engine("overflow,stall", ("C11",), None, 300, 4000)],
         "rule": "tree engine: random trees mixing all six constructors and monitors up to depth 4; every kind of node gets closed (Close on a "
                 "subscription, filtered subscription, clone, monitor; root Close or context cancel at the end), at quiescent points and inside "
                 "bursts with events / Refilter / relists in flight, with stalled consumers present. After every action the Done() of every node "
